@@ -425,7 +425,8 @@ def zeros (n : Nat) : List Char := List.replicate n '\x00'
 def vsnprintf_s (fx : Fixes) (slack : Bool) (dmax : Nat) (init : List Char) (fmt : Str) (args : List Arg) : Result :=
   if dmax = 0 then ⟨some (-(ESZEROL : Int)), "", init, []⟩
   else if dmax > RSIZE_MAX_STR then ⟨some (-(ESLEMAX : Int)), "", init, []⟩
-  else if SafeC.Fmt.prescan fmt then ⟨some (-(EINVAL : Int)), "", init, []⟩
+  -- `handle_error(dest, dmax, "vsnprintf_s: illegal %n", EINVAL)` (fix: commit 334ee1c; before it dest was left as it was)
+  else if SafeC.Fmt.prescan fmt then ⟨some (-(EINVAL : Int)), "", if slack then zeros dmax else init.set 0 '\x00', []⟩
   else
     match engine fx .buffer dmax fmt args ⟨0, init, []⟩ with
     | .ok s =>
